@@ -39,17 +39,32 @@ def pass_gate(token: int | None, k: int) -> None:
     gate.pass_through(k)
 
 
+def body_done(token: int | None, k: int) -> None:
+    """Report that the body of task `k` is over (never blocks)."""
+    if token is None:
+        return
+    gate = REGISTRY.get(token)
+    if gate is not None:
+        gate.body_done(k)
+
+
 def vec_key(x) -> tuple:
     return tuple(float(v) for v in atleast_1d(x))
 
 
 class GatedAffine(Discipline):
-    """`out = a * x + b` (elementwise) with Jacobian `a * I`; gated by a fixed key or by input."""
+    """`out = a * x + b` (elementwise) with Jacobian `a * I`; gated by a fixed key or by input.
+
+    `inplace=c`: a discipline that works IN PLACE on its input array: `_run` first multiplies the array it is
+    given by `c` (`x *= c`, the same array object), then returns `a * x + b` of the scaled array.  With
+    `key_of` the key of a task is looked up from the value of the input *before* the scaling.
+    The end of `_run` is reported through `body_done` (non-blocking) so that the harness can serialise the
+    bodies of such tasks."""
 
     def __init__(self, name: str, a: float, b: float, out_name: str = "y", token: int | None = None,
                  key: int | None = None, key_of: dict[tuple, int] | None = None, fail_keys: tuple[int, ...] = (),
                  sleep_of: dict[int, float] | None = None, counter: Any = None, gate_on: str = "run",
-                 stop_keys: tuple[int, ...] = ()) -> None:
+                 stop_keys: tuple[int, ...] = (), inplace: float | None = None) -> None:
         super().__init__(name=name)
         self.io.input_grammar.update_from_names(["x"])
         self.io.output_grammar.update_from_names([out_name])
@@ -65,6 +80,7 @@ class GatedAffine(Discipline):
         self.counter = counter
         self.gate_on = gate_on
         self.stop_keys = tuple(stop_keys)
+        self.inplace = inplace
 
     def _key(self, x) -> int | None:
         if self.key is not None:
@@ -79,9 +95,15 @@ class GatedAffine(Discipline):
         if self.counter is not None:
             with self.counter.get_lock():
                 self.counter.value += 1
-        if k is not None and self.gate_on == "run":
-            self._gate(k)
-        return {self.out_name: self.a * x + self.b}
+        try:
+            if k is not None and self.gate_on == "run":
+                self._gate(k)
+            if self.inplace is not None:
+                x *= self.inplace  # in place: the array object handed to the discipline is overwritten
+            return {self.out_name: self.a * x + self.b}
+        finally:
+            if k is not None and self.gate_on == "run":
+                body_done(self.token, k)
 
     def _gate(self, k: int) -> None:
         pass_gate(self.token, k)
@@ -95,10 +117,14 @@ class GatedAffine(Discipline):
 
     def _compute_jacobian(self, input_names=(), output_names=()):
         k = self._key(self.io.data["x"])
-        if k is not None and self.gate_on == "jac":
-            self._gate(k)
-        n = self.io.data["x"].size
-        self.jac = {self.out_name: {"x": self.a * eye(n)}}
+        try:
+            if k is not None and self.gate_on == "jac":
+                self._gate(k)
+            n = self.io.data["x"].size
+            self.jac = {self.out_name: {"x": self.a * eye(n)}}
+        finally:
+            if k is not None and self.gate_on == "jac":
+                body_done(self.token, k)
 
 
 class GatedFunction:
